@@ -620,6 +620,9 @@ class Engine:
             return [(None, otherwise)]
         alts = []
         conds = []
+        if isinstance(v, Opaque):
+            # a value the check does not depend on (tracing level filters, ...): every target is possible
+            v = self.fresh("opaque_switch", 64)
         for k, t in targets:
             if z3.is_bool(v):
                 cnd = v if k != 0 else z3.Not(v)
@@ -731,6 +734,8 @@ class Engine:
                     v = v.f[comp]
                 elif isinstance(v, Closure):
                     v = list(v.caps.values())[comp]
+                elif isinstance(v, Enum) and "up" in v.v:
+                    v = v.v["up"].f[comp]          # coroutine state: captured variables live beside the state variants
                 elif isinstance(v, Ptr) and comp == 0:
                     pass   # transparent wrappers (NonNull(ptr), Shared{data}) keep the pointer
                 else:
@@ -802,6 +807,12 @@ class Engine:
             return
         if isinstance(comp, tuple) and comp[0] == "idx":
             comp = concrete(comp[1])
+        if isinstance(cur, Enum) and "up" in cur.v:
+            if not rest:
+                cur.v["up"].f[comp] = val
+            else:
+                self.store_into(ctx, cur.v["up"].f, comp, rest, val)
+            return
         if isinstance(cur, Closure):
             names = list(cur.caps.keys())
             if not rest:
@@ -964,6 +975,8 @@ class Engine:
             name = self.prog.allocs.get((getattr(f.body, "crate", None), ma.group(1))) or self.prog.allocs.get(ma.group(1))
             if name and name.split("::")[-1] in self.static_objs:
                 return self.static_objs[name.split("::")[-1]]
+            if any(p.search(c) for p in self.opaque):
+                return Opaque(c)
             raise Unsupported(f"static allocation {c} ({name}) has no object in this scenario")
         mm = re.search(r"(\w+)::promoted\[(\d+)\]$", strip_generics(c))
         if mm:
@@ -1290,6 +1303,8 @@ class Engine:
         if k == "setdiscr":
             ptr = self.eval_place(ctx, f, s[1])
             cur = self.load_ptr(ctx, ptr) if ptr.root[0] == "local" and (ptr.path or ptr.root[2] in self.frame_by_id(ctx, ptr.root[1]).locals) else None
+            if ptr.root[0] == "static":
+                cur = self.load_ptr(ctx, ptr)
             if isinstance(cur, Enum):
                 cur.discr = s[2]
                 self.store_ptr(ctx, ptr, cur)
